@@ -549,6 +549,58 @@ def run_live_report(spec, res):
                               sig={'aspect': 'live-report', 'tail': tn})
 
 
+def run_catching_prefetch(spec, res):
+    """A prefetch that filters exceptions (catch_filter_exception, one worker
+    or several) inside a profiled pipeline: every fetch below it is counted,
+    the failed ones included, epoch after epoch."""
+    ld = import_lazy_dataset()
+    FE = ld.core.FilterException
+    pat = re.compile(r'MapDataset\(<function \S*\.fc at 0x[0-9a-f]+>\)[^\n]*?hits = (\d+)')
+    for n in (3, 8):
+        for w, b in ((1, 2), (1, 1), (2, 3)):
+            for sel_name, sel in (('true', True), ('type', FE), ('list', [FE, KeyError]),
+                                  ('tuple', (FE, MyValueError))):
+                for wrap in ('wrapper', 'copy-of-wrapper'):
+                    calls = []
+
+                    def fc(x, calls=calls):
+                        calls.append(x)
+                        return x
+
+                    def bad(x):
+                        if x % 3 == 1:
+                            raise FE(x)
+                        return x
+                    case = {'catching_prefetch': True, 'n': n, 'workers': w, 'buffer': b,
+                            'selection': sel_name, 'iterated': wrap}
+                    res.case(('catchpf', n, w, b, sel_name, wrap), True)
+                    try:
+                        ds = ld.new(list(range(n))).map(fc).map(bad).prefetch(
+                            w, b, 't', catch_filter_exception=sel)
+                        p = ld.core.ProfilingDataset(ds)
+                        q = p.copy() if wrap == 'copy-of-wrapper' else p
+                        readings = []
+                        outs = []
+                        for _ in range(2):
+                            outs.append(list(q))
+                            m_ = pat.search(repr(q))
+                            readings.append((int(m_.group(1)) if m_ else None, len(calls)))
+                    except BaseException as e:
+                        res.violation('profiling-changes-observation', case, exc_sig(e),
+                                      sig={'aspect': 'catching-prefetch'})
+                        continue
+                    res.count('catching_prefetch_reports_read', len(readings))
+                    want = [x for x in range(n) if x % 3 != 1]
+                    if outs != [want, want]:
+                        res.violation('profiling-changes-observation', case,
+                                      {'delivered': outs, 'want': want},
+                                      sig={'aspect': 'catching-prefetch'})
+                    elif any(r != c for r, c in readings):
+                        res.violation('hit-count-wrong', case,
+                                      {'(reported, calls so far) after each epoch': readings},
+                                      sig={'aspect': 'catching-prefetch', 'workers': w})
+
+
 def shards(tier, seed):
     lim = LIMITS[tier]
     J = 14
@@ -569,6 +621,7 @@ def run_shard(spec, res):
         return run_sched(spec, res)
     if spec['what'] == 'epochs':
         run_live_report(spec, res)
+        run_catching_prefetch(spec, res)
         return run_epochs(spec, res)
     ld = import_lazy_dataset()
     if spec['what'] == 'exh':
@@ -608,4 +661,10 @@ def finalize(res, tier):
 
 def replay(case, res):
     ld = import_lazy_dataset()
+    if case.get('catching_prefetch'):
+        return run_catching_prefetch({}, res)
+    if case.get('live_report'):
+        return run_live_report({}, res)
+    if 'prog' not in case:
+        return run_epochs({'seed': 0, 'name': 'epochs', **LIMITS['quick']}, res)
     check(ld, fix_prog(case['prog']), res)
